@@ -34,7 +34,9 @@ type caseSpec struct {
 	role   string
 	// probe: a relation a property states between several executions on the SAME values in memory
 	// (which the case file cannot carry); each finding is {property, clause, detail}
-	probe func(p *path.Path, cs caseSpec) [][3]string
+	probe  func(p *path.Path, cs caseSpec) [][3]string
+	share  bool // the document has shared sub-values (shareEqual): recorded in the replay line
+	intDoc bool // integral numbers of the document are int64 (intify): recorded in the replay line
 }
 
 type emitter struct {
@@ -186,6 +188,9 @@ func (e *emitter) emit(cs caseSpec) {
 		}
 	}
 	pure := snapshot == jsonS(cs.doc)+varsS(cs.vars)
+	if !decoyIntact() {
+		pure = false // the map of an earlier WithVars was written to
+	}
 	fmt.Fprintf(w, ") (pure %v))\n", pure)
 }
 
@@ -240,7 +245,7 @@ func replayLine(cs caseSpec) string {
 	for _, v := range cs.vars {
 		number = number || hasNumber(v)
 	}
-	fc := fileCase{Family: cs.family, Text: cs.text, Number: number, UseTZ: cs.useTZ, TZ: cs.tzOff, Cancel: cs.cancel, Group: cs.group, Role: cs.role}
+	fc := fileCase{Family: cs.family, Text: cs.text, Number: number, UseTZ: cs.useTZ, TZ: cs.tzOff, Cancel: cs.cancel, Group: cs.group, Role: cs.role, Share: cs.share, IntDoc: cs.intDoc}
 	numDoc := hasNumber(cs.doc)
 	fc.NumDoc = &numDoc
 	numVars := []string{}
